@@ -45,6 +45,14 @@ func replayObligation(prop string, ob *Obligation, cfg string, overlay map[strin
 	dirName := unsafeName.ReplaceAllString(fmt.Sprintf("%s_%s_%s", ob.Harness, strings.Trim(ob.Case, "[]"), ob.Pos), "_")
 	dir := filepath.Join(replayRoot, prop, dirName)
 	os.MkdirAll(dir, 0o755)
+	if ob.Kind == ObStore && !strings.HasPrefix(ob.Harness, "vh_C15_") && !strings.HasPrefix(ob.Harness, "vh_C13_NewKeyFromSeed") && !strings.HasPrefix(ob.Harness, "vh_C16_") && !strings.HasPrefix(ob.Harness, "vh_C19_") && !strings.HasPrefix(ob.Harness, "vh_C18_") {
+		// a store to a caller-supplied or package-level object: confirmed by the sweep that runs the public API
+		// concurrently on shared inputs and compares the inputs afterwards (also catches writes that are undone)
+		ok, desc, detail := raceSweepReplayer(prop, ob, cfg, dir)
+		if ok {
+			return Violation{Key: key, Desc: desc, Replay: dir, Ob: ob}, true, detail
+		}
+	}
 	best := ""
 	for pfx := range customReplayers {
 		if strings.HasPrefix(ob.Harness, pfx) && len(pfx) > len(best) {
@@ -444,10 +452,10 @@ func init() {
 	for _, p := range []string{"vh_C06_", "vh_C03_batch", "vh_C04_batch", "vh_C05_batch", "vh_C07_batch", "vh_C13_batch", "vh_C03_batch", "vh_C09_batch"} {
 		customReplayers[p] = batchSweepReplayer
 	}
-	for _, p := range []string{"vh_C01_", "vh_C05_Verify", "vh_C04_verify", "vh_C07_"} {
+	for _, p := range []string{"vh_C01_", "vh_C05_Verify", "vh_C04_verify", "vh_C07_", "vh_C13_Verify", "vh_C13_nil"} {
 		customReplayers[p] = verifySweepReplayer
 	}
-	for _, p := range []string{"vh_C02_", "vh_C14_GenerateKey", "vh_C14_accessors", "vh_C07_Sign"} {
+	for _, p := range []string{"vh_C02_", "vh_C14_GenerateKey", "vh_C14_accessors", "vh_C07_Sign", "vh_C13_NewKeyFromSeed", "vh_C13_Sign", "vh_C13_PrivateKey"} {
 		customReplayers[p] = signSweepReplayer
 	}
 }
